@@ -237,9 +237,6 @@ def r4_all_values_written(chk: Check):
     xv = tree.func("core.objects", "ConfigInformation.xpmvalues")
     t = src(xv.node)
     chk.require("ignored" not in t and "constant" not in t, chk.fkey(xv, "no filter"), "xpmvalues() filters arguments", chk.loc(xv.module, xv.node))
-    loops = [x for x in body_walk(xv.node) if isinstance(x, ast.For)]
-    chk.require(len(loops) == 1 and src(loops[0].iter) == "self.xpmtype.arguments.values()", chk.fkey(xv, "declaration order"),
-                "xpmvalues() must iterate the declared arguments (declaration order), not the assignment order of the values", chk.loc(xv.module, xv.node))
 
 
 def r5_sharing(chk: Check):
@@ -293,7 +290,7 @@ RULES = [
     ("R1", "record keys: mandatory keys unconditional; optional keys written exactly when their source is set; every key read is written; pre-tasks / init-tasks / task / meta / fields / typename / identifier are restored", r1_record_keys),
     ("R2", "value tags: every storable kind is written; tags and payload keys of writer and loader agree; references go through the objects table; the collector reaches what the writer references", r2_value_tags),
     ("R3", "the tri-state meta flag is written and read under `is not None`", r3_tristate),
-    ("R4", "every argument value (ignored, generated, constant included) is written, in declaration order", r4_all_values_written),
+    ("R4", "every argument value (ignored, generated, constant included) is written", r4_all_values_written),
     ("R5", "sharing and cycles: visited-test and mark before recursion, children before parent; loader creates all objects before filling", r5_sharing),
     ("R6", "top-level keys of the parameter file read by run / load_job / filters / from_task_dir are written; tags reach the task before execute()", r6_top_level),
 ]
